@@ -132,7 +132,13 @@ func (core *JApiCore) checkPathSchemaRoot(s *jschema.JSchema) error {
 			return fmt.Errorf(`%s (%s)`, jerr.UserTypeNotFound, typeName)
 		}
 
-		return core.checkPathSchemaRoot(ut.Schema.(*catalog.ExchangeJSightSchema).JSchema)
+		es, ok := ut.Schema.(*catalog.ExchangeJSightSchema)
+		if !ok {
+			// a type in regex / any / empty notation is not an object
+			return errors.New(jerr.PathObjectErr)
+		}
+
+		return core.checkPathSchemaRoot(es.JSchema)
 	}
 
 	if s.ASTNode.TokenType != schema.TokenTypeObject {
@@ -229,6 +235,11 @@ func (core *JApiCore) checkPathSchemaPropertyUserType(typeName string) error {
 	ut, ok := core.catalog.UserTypes.Get(typeName)
 	if !ok {
 		return fmt.Errorf(`%s (%s)`, jerr.UserTypeNotFound, typeName)
+	}
+
+	if _, ok := ut.Schema.(*catalog.ExchangePseudoSchema); ok {
+		// a type in any / empty notation has no schema to inspect
+		return nil
 	}
 
 	rootNode, err := ut.Schema.GetAST()
